@@ -28,6 +28,8 @@ V = [-1.0, 0.0, 1.0, 1.04, 2.0]
 V4 = [-1.0, 0.0, 1.0, 1.04]
 INF = float("inf")
 TOLS = [0.0, 0.05, 1.5, INF]
+FINE = [1.0, 1.0 + 2e-8, 1.0 + 4e-8, 1.0 + 8e-8]   # gaps 2, 4, 6, 8 (x 1e-8): never equal to a tolerance below
+FINE_TOLS = [1e-8, 3e-8, 5e-8]
 PERIODS = [(1, 1), (1, 2), (1, 3), (2, 1), (2, 2), (2, 3), (3, 2)]
 PERIODS_THOROUGH = PERIODS + [(4, 3), (5, 2), (3, 1)]
 
@@ -36,7 +38,8 @@ def bound(tier):
     q = tier == "quick"
     return dict(values=V if q else "5 values to length 4, 4 values to length 6", max_length=4 if q else 6, patience=[1, 3] if q else [1, 5], periods=PERIODS,
                 criteria=["relative", "absolute", "variance"], tolerances=["0", "0.05", "1.5", "inf"], evaluators=["MetricEvaluator", "ObservableEvaluator"],
-                through_fit="sequences of length <= 3" if q else "sequences of length <= 4")
+                through_fit="sequences of length <= 3" if q else "sequences of length <= 4",
+                fine_scale=dict(values=FINE, tolerances=FINE_TOLS, max_length=3 if q else 4, patience=[1, 2]))
 
 
 def plan(tier, seed):
@@ -57,6 +60,12 @@ def plan(tier, seed):
         for first in range(len(NANV)):
             for kind in ("metric", "obs"):
                 items.append(dict(L=L, first_index=first, kind=kind, vals="nan", pmax=2, fit=(L == 2)))
+    # values that differ only in the 8th significant digit, tolerances between their gaps: the deviation must be
+    # formed in double precision (a float32 round trip of the evaluations moves every decision here)
+    for L in (2, 3) + (() if tier == "quick" else (4,)):
+        for first in range(len(FINE)):
+            for kind in ("metric", "obs"):
+                items.append(dict(L=L, first_index=first, kind=kind, vals="fine", pmax=2, fit=(L == 2)))
     for first in (0.0, 1.0, 1.04, 2.0):
         for kind in ("metric", "obs"):
             items.append(dict(layer="reuse", first=first, kind=kind))
@@ -412,8 +421,12 @@ def run_item(item):
         return acc
     L, kind, vals = item["L"], item["kind"], item["vals"]
     flagged = set()
+    tols = TOLS
     if vals == "nan":
         vals = V + [float("nan")]
+        item = dict(item, first=vals[item["first_index"]])
+    elif vals == "fine":
+        vals, tols = FINE, FINE_TOLS
         item = dict(item, first=vals[item["first_index"]])
     fixed = [item["first"]] + ([item["second"]] if "second" in item else [])
     with contextlib.redirect_stdout(io.StringIO()):
@@ -424,7 +437,7 @@ def run_item(item):
                     for crit in ("relative", "absolute", "variance"):
                         if crit == "variance" and kind == "metric":
                             continue
-                        for tol in TOLS:
+                        for tol in tols:
                             check(acc, seq, patience, Pe, Ps, crit, tol, kind, False, flagged)
                             if item["fit"] and (Pe, Ps) in ((1, 1), (2, 3), (1, 2)):
                                 check(acc, seq, patience, Pe, Ps, crit, tol, kind, True, flagged)
